@@ -46,3 +46,7 @@ chk("C20", "exploration",
     "All relative vectors on a half-integer grid x boxes x both box forms x all translations from a grid, 27 image shifts per atom, the 24 cube rotations and velocity reversal for Distance/Distancevel; geometry tables for Dihedral/Puckering under the same groups; pbc_dist_coordinate on a 1-D sweep; the system is compared before/after every calculate().",
     "Trusted: exact minimum-image ties are excluded for the sign-sensitive Distancevel; rotations restricted to the cube group (exact on the grid).",
     "exhaustive enumeration over finite symmetry groups", "DESIGN.md 4/C20")
+chk("C18", "exploration",
+    "Exhaustive product lattice (about 60 000 configurations) over interfaces x workers x moves length/pattern x interface_cap x ensemble_engines x lambda_-1 x quantis through the real setup_config/check_config against a validity predicate written from the property sentence (invalid => TOMLConfigError, never another exception); every accepted configuration is initialised through the real setup_internal with lattice paths, the initial picks and one completed step per worker, and the restart file it wrote must be a fixed point of setup_config.",
+    "Trusted: the validity predicate; only 'invalid => rejected' and 'accepted => initialises' are demanded (rejecting more is allowed).",
+    "exhaustive configuration enumeration against a reference predicate", "DESIGN.md 4/C18")
